@@ -136,7 +136,9 @@ fn run_l<L: Language + 'static>(c: &RenCase, obs: &mut Obs) -> Result<(), String
         }
         observe::<L>(&c1, &n1, &an1)
     })??;
-    let (c2, n2, an2, pre) = (c.base.clone(), c.naming2.clone(), all_names.clone(), c.preintern_reverse);
+    let (mut c2, n2, an2, pre) = (c.base.clone(), c.naming2.clone(), all_names.clone(), c.preintern_reverse);
+    // the rules are inputs as well: in the second run their pattern slots carry other names, interned in reverse order
+    c2.rule_slot_variant = 1;
     let r2 = in_fresh_thread(move || {
         if pre {
             for n in an2.iter().rev() {
@@ -228,5 +230,5 @@ pub fn property(tier: Tier) -> Property {
             exhaustive: false,
         }));
     }
-    Property { id: "C11", scale: tier.pick(3, 2), stages, assumptions: vec!["rules of the rewrite pool keep their own pattern slot names in both runs".into()] }
+    Property { id: "C11", scale: tier.pick(3, 2), stages, assumptions: vec!["in the second run the pattern slots of the rewrite rules are renamed as well ($x -> $rx ..) and interned in reverse order".into()] }
 }
